@@ -379,6 +379,8 @@ def step (ctx : Ctx) (lhs : String) (implObs : String := "") : Ctx × String :=
     match resolve cli with
     | none => (ctx, "usage-error")
     | some a =>
+      let busy : List String := match kvOf rest "busy" with | none | some "-" => [] | some v => v.splitOn ";"
+      if (startup a busy).isNone then (ctx, "failed bind") else
       let h := httpCfgOf a
       let al := match a.allow with | none => "none" | some l => if l.isEmpty then "empty" else ",".intercalate (l.map showU)
       ({ ctx with st := .sql {}, sys := { cfg := h.cfg, params := Params.impl, ensure := ctx.sys.ensure }, allow := a.allow },
